@@ -19,7 +19,10 @@ func init() { runtime.LockOSThread() }
 //   kind "commit": safe.CreateWithMode, one File.Write per piece, Commit, Close
 //   kind "abort":  safe.CreateWithMode, one File.Write per piece, Close (no Commit)
 // after is called after every piece handed over (may be nil).
-func perform(kind, dst string, mode uint32, pieces []int, cbFail int, after func(i int)) error {
+// cbMode says what the callback does with an error returned by w.Write: "p" returns it, "s" swallows it and stops
+// (returns nil), "k" swallows it and keeps writing the remaining pieces (returns nil) — the last two rely on the
+// final Flush to report the write error, as fmt.Fprintf- or encoder-style callbacks do.
+func perform(kind, dst string, mode uint32, pieces []int, cbFail int, cbMode string, after func(i int)) error {
 	switch kind {
 	case "baseline": // plain os calls, independent of the code under test: teaches the tracer names and offsets
 		f, err := os.OpenFile(dst+".b", os.O_RDWR|os.O_CREATE|os.O_EXCL, os.FileMode(mode))
@@ -44,7 +47,15 @@ func perform(kind, dst string, mode uint32, pieces []int, cbFail int, after func
 					return errCB
 				}
 				if _, err := w.Write(genBytes(off, n, seedNew)); err != nil {
-					return err
+					switch cbMode {
+					case "s":
+						return nil
+					case "k":
+						off += n
+						continue
+					default:
+						return err
+					}
 				}
 				off += n
 				if after != nil {
@@ -83,11 +94,11 @@ func perform(kind, dst string, mode uint32, pieces []int, cbFail int, after func
 	panic("bad kind " + kind)
 }
 
-// childMain: child <umask> <mode> <dst> <kind> <pieces> <cbFail>; prints the result code with one write(2).
+// childMain: child <umask> <mode> <dst> <kind> <pieces> <cbFail> <cbMode>; prints the result code with one write(2).
 func childMain() {
 	debug.SetGCPercent(-1)
 	a := os.Args[2:]
 	syscall.Umask(int(octal(a[0])))
-	err := perform(a[3], a[2], octal(a[1]), parsePieces(a[4]), atoi(a[5]), nil)
+	err := perform(a[3], a[2], octal(a[1]), parsePieces(a[4]), atoi(a[5]), a[6], nil)
 	os.Stdout.WriteString("res=" + resCode(err) + "\n")
 }
